@@ -1,4 +1,12 @@
 import NasdaqModel.Driver.Loop
 import NasdaqModel.Driver.Session
 import NasdaqModel.Driver.AppSession
-def main : IO Unit := NasdaqModel.Driver.mainLoop [NasdaqModel.Driver.SessD.handle, NasdaqModel.Driver.AppD.handle]
+import NasdaqModel.Witness.C04App
+import NasdaqModel.Witness.C05App
+open NasdaqModel in
+def appWitnesses : List (String × List App.Ev) :=
+  [("C04App-late-cancel", Witness.C04App.history),
+   ("C05App-close-from-handler", Witness.C05App.historyA),
+   ("C05App-cleanup-close", Witness.C05App.historyB)]
+def main : IO Unit :=
+  NasdaqModel.Driver.mainLoop [NasdaqModel.Driver.SessD.handle, NasdaqModel.Driver.AppD.handleWith appWitnesses]
